@@ -157,32 +157,41 @@ def run_tlc(module, cfg, timeout, tag, workers=None, coverage=True, simulate=Non
     t = time.time()
     tlclog = os.path.join(OUT, "tlc", tag + ".log")
     report = None
-    try:
-        if pipe_to:
-            e2 = dict(e)
-            e2["MTV_TLC_LOG"] = tlclog
-            e2["MTV_TAG"] = tag
-            e2["MTV_VIOL_DIR"] = VIOL
-            if os.path.exists(tlclog):
-                os.remove(tlclog)
-            p1 = subprocess.Popen(["timeout", str(timeout)] + cmd, cwd=SPEC, env=e, stdout=subprocess.PIPE,
-                                  stderr=subprocess.DEVNULL)
-            p2 = subprocess.Popen(pipe_to, stdin=p1.stdout, stdout=subprocess.PIPE, stderr=subprocess.PIPE,
-                                  env=e2, text=True, errors="replace")
-            p1.stdout.close()
-            out2, err2 = p2.communicate()
-            rc1 = p1.wait()
-            text = open(tlclog, errors="replace").read() if os.path.exists(tlclog) else ""
-            report = parse_report(out2, err2, p2.returncode)
-        else:
-            p = subprocess.run(["timeout", str(timeout)] + cmd, cwd=SPEC, env=e, stdout=subprocess.PIPE,
-                               stderr=subprocess.STDOUT, text=True, errors="replace")
-            rc1 = p.returncode
-            text = p.stdout
-            with open(tlclog, "w") as f:
-                f.write(text)
-    finally:
-        subprocess.run(["rm", "-rf", meta])
+    for attempt in (1, 2):
+        try:
+            if pipe_to:
+                e2 = dict(e)
+                e2["MTV_TLC_LOG"] = tlclog
+                e2["MTV_TAG"] = tag
+                e2["MTV_VIOL_DIR"] = VIOL
+                if os.path.exists(tlclog):
+                    os.remove(tlclog)
+                p1 = subprocess.Popen(["timeout", str(timeout)] + cmd, cwd=SPEC, env=e, stdout=subprocess.PIPE,
+                                      stderr=subprocess.DEVNULL)
+                p2 = subprocess.Popen(pipe_to, stdin=p1.stdout, stdout=subprocess.PIPE, stderr=subprocess.PIPE,
+                                      env=e2, text=True, errors="replace")
+                p1.stdout.close()
+                out2, err2 = p2.communicate()
+                rc1 = p1.wait()
+                text = open(tlclog, errors="replace").read() if os.path.exists(tlclog) else ""
+                report = parse_report(out2, err2, p2.returncode)
+            else:
+                p = subprocess.run(["timeout", str(timeout)] + cmd, cwd=SPEC, env=e, stdout=subprocess.PIPE,
+                                   stderr=subprocess.STDOUT, text=True, errors="replace")
+                rc1 = p.returncode
+                text = p.stdout
+                with open(tlclog, "w") as f:
+                    f.write(text)
+        finally:
+            subprocess.run(["rm", "-rf", meta])
+        # the JVM was killed from outside (rc 137: the kernel's OOM killer on an overcommitted machine) or ran out of
+        # memory: no verdict was reached - try once more before reporting a tool error
+        if attempt == 1 and (rc1 == 137 or "OutOfMemoryError" in text or "insufficient memory" in text):
+            log(f"[tlc] {tag}: JVM died without a verdict (rc={rc1}); retrying once")
+            time.sleep(20)
+            os.makedirs(meta, exist_ok=True)
+            continue
+        break
     res.wall = time.time() - t
     res.log = text
     parse_tlc(text, res)
@@ -217,7 +226,7 @@ def validate_trace(module, cfg, trace, tag, timeout=900):
     """TLC as the judge of a recorded trace. returns (accepted: bool, TlcResult)"""
     res, _ = run_tlc(module, cfg, timeout, tag, workers=1, coverage=False,
                      env={"TRACE": trace},
-                     extra_java="-Dtlc2.tool.queue.IStateQueue=StateDeque", expect_ok=False)
+                     extra_java="-Xmx6g -Dtlc2.tool.queue.IStateQueue=StateDeque", expect_ok=False)   # (the last -Xmx wins)
     accepted = res.ok and not res.violated and "TRACE NOT ACCEPTED" not in res.log and "MISMATCH" not in res.log
     if not accepted and not res.violated and "TRACE NOT ACCEPTED" not in res.log and "MISMATCH" not in res.log:
         raise ToolError(f"trace validation broke ({tag}):\n" + res.log[-3000:])
